@@ -22,8 +22,9 @@ SPEC = {
                           "C16_repeated_origin_rejected", "C16_repeated_endpoint_rejected", "C16_grid_margins", "C16_grid_tight",
                           "C16_crossings_sound", "C16_crossings_on_grid_lines", "C16_crossings_complete", "C16_crossings_sorted", "C16_crossings_count", "C16_metadata_order", "C16_metadata_same_intersections", "C16_metadata_spec",
                           "C16_markFaces_spec", "C16_markFaces_err", "C16_markFaces_total", "C16_markFaces_err_iff",
-                          "C16_slots_genpos", "C16_hits_ranks", "C16_hits_all_written", "C16_group_sorted", "C16_intersection_ids_spec",
-                          "C16_intersection_ids_distinct", "C16_intersection_darts_spec", "C16_nan_slot_shifts_ids", "C16_deleteDarts_spec", "C16_deleteDarts_order_independent",
+                          "C16_slots_genpos", "C16_hits_slot_numbers", "C16_group_sorted", "C16_intersection_ids_spec",
+                          "C16_intersection_ids_distinct", "C16_intersection_darts_spec", "C16_intersection_darts_distinct",
+                          "C16_unwritten_slot_null", "C16_insert_edge_spec", "C16_deleteDarts_spec", "C16_deleteDarts_order_independent",
                           "C16_clip_spec", "C16_clip_WF", "C16_clip_order_independent", "C16_clipLeft_spec", "C16_clipRight_spec",
                           "C16_between_crossings_one_cell"],
     "trusted_base": [
@@ -43,13 +44,15 @@ SPEC = {
         "t) on the exact family (1500 segments quick / 12000 thorough: power-of-two cells, dyadic ends, |dx|, |dy| in {0} u {2^a}, "
         "grids up to 4000 cells, all ten code paths; + 400 / 3200 segments through 1..8 grid corners, four diagonal directions) and "
         "with equal dart ids and t within 1e-9 on 500 / 4000 general segments",
-        "hand-written pure model of step 2 (Model/Grisubal.lean: hitsOf, groupOf, slicesFrom, idAssignments, intersectionIds, "
-        "intersectionDarts = group_intersections_per_edge + compute_intersection_ids, HashMap iteration order as a parameter): NOT "
-        "tied directly — these functions are crate-private and not behind the hook (requested: a cfg(honeycomb_verif) wrapper "
-        "`verif::intersection_darts(cmap: &mut CMap2<T>, metadata: Vec<(DartIdType, T)>) -> Vec<DartIdType>` running "
-        "group_intersections_per_edge + compute_intersection_ids + insert_intersections); its only observed consequence is the "
-        "panic it predicts (C16_nan_slot_shifts_ids) on exactly the corner cases where the real step-1 slots have a NaN slot before "
-        "a written one (stream `edges through grid corners`, 309 of 402 cases quick-sized, the other 93 satisfy every clause)",
+        "hand-written model of steps 2 + 3 (Model/Grisubal.lean: hitsOf, groupOf, slicesFrom, idAssignments, intersectionIds = "
+        "group_intersections_per_edge + compute_intersection_ids, HashMap iteration order as a parameter; Model/GrisubalInsert.lean: "
+        "stepsTwoThree = these + add_free_darts + C14's insertVerticesOnEdge per edge) tied DIRECTLY through the hook "
+        "grisubal::verif::intersection_darts (/repo 1a6fc02): `gids` on both drivers — dart vector, `wf` and full snapshot of the map "
+        "after insertion as IDENTICAL TEXT, the real HashMap order being read off the implementation's result (block of edge e starts at "
+        "beta1(e)) and handed to the model; 800 / 6400 random slot vectors on fresh grids (unwritten slots, several hits per edge from "
+        "both sides, equal positions, positions 0 / 1 -> panic on both sides) + the real slot vectors of 80 / 640 corner and 80 / 640 "
+        "on-line geometries; plus a hook-level Python oracle on the implementation (each written slot k: res[k] is a new dart on the "
+        "beta1 chain of the dart hit, its vertex is the point at position t; unwritten slots 0; 2 new darts per written slot; wf)",
         "hand-written model Model/Clip.lean (clip_left / clip_right / mark_faces / delete_darts over the per-dart Boundary storage 9) "
         "tied through the hook grisubal::verif::{clip_left, clip_right, Boundary}: protocol `bndinit` / `wbnd` / `clip left|right` on "
         "both drivers; streams: 300 tagged grids (regions, missing / flipped / stray / explicit-None tags), every well-formed 2-map "
@@ -63,10 +66,9 @@ SPEC = {
     "assumptions": [
         "general position is the generator's filter: no geometry vertex on a grid line of the grid the kernel chooses "
         "(origin = bounding-box minimum - 1.5 cells), no segment through a grid corner, simple pairwise disjoint loops, "
-        "consistent orientation (holes reversed); the stream `edges through grid corners` drops the corner restriction on an "
-        "exact family (cell-multiple steps {0,1,2,4}, so that the kernel's epsilon tests see exact 0 / 1), the stream `vertices on "
-        "grid lines` the vertex restriction (lattice 1/4, cell 1; not on corners, no origin shift); both lie outside the statement's "
-        "`general position` and are reported as findings D16c / D16d with structural signatures, never as violations of the GP clauses",
+        "consistent orientation (holes reversed). Every stream that evaluates a clause of the property stays inside it. The streams "
+        "`edges through grid corners` and `vertices on grid lines` (exact families) lie OUTSIDE the statement's general position: they "
+        "are correspondence-only (steps 1-3, model vs implementation through the two hooks), no clause of C16 is evaluated on them",
         "geometric clauses are validated on the f64 instantiation with tolerance 1e-9 (positions) / 1e-9 relative (areas); "
         "signs of face areas and all topology are exact; rounding itself is not modelled",
         "C16_crossings_* are stated over exact rationals for segments in eps-general position (GenPos: ends inside the grid "
@@ -84,10 +86,26 @@ SPEC = {
             "(exact family, equality of rationals) and 60 general polygons (1e-9), every segment, all code paths (same cell, "
             "neighbour, row+-, column+-, four diagonal directions; counts in the evidence); + direct step-1 tie (`gcrossd`, hook): 1500 "
             "exact + 500 general + 400 corner segments; + clip tie (hook): tagged grids, all maps <= 3 darts, rebuilt real pre-clip maps; "
-            "+ 40 polygons with an edge through a grid corner x up to 3 segment orders x 3 clips, each with the real step-1 slots "
-            "probed through the hook; + 40 all-corner-poi polygons with a vertex on a grid line (lattice 1/4, cell 1) x 3 clips, same probes "
-            "(findings D16c / D16d; cases without an unwritten slot must satisfy every clause). thorough: x8. "
+            "+ steps 2-3 tie (`gids`, hook): 800 slot vectors; + outside general position, correspondence only: 80 polygons with an edge "
+            "through a grid corner and 80 with a vertex on a grid line: gcrossd on every segment, gids on the real slot vector. "
+            "thorough: x8. "
             "distinct_nontrivial = distinct implementation transcripts.",
+    "observations": [
+        "OBSERVATION outside the property (not a finding: C16 is stated for boundaries in general position with respect to the grid): "
+        "the diagonal branch of generate_intersection_data (cells of the two ends differ in both directions) keeps an intersection only "
+        "when its parameter s along the segment satisfies eps < s <= 1 - eps, so a crossing at s = 0 or s = 1 — a segment end lying on a "
+        "grid line, which compute_overlapping_grid tolerates in grisubal (only corners and same-cell reflections shift the origin; "
+        "capture_geometry shifts for every vertex on a line) and remove_redundant_poi counts on — is dropped although l1_dist counted "
+        "that grid line; the neighbour / row / column branches record it. The slot stays (0, NaN); the vertex on the grid line is then "
+        "no vertex of the mesh (its point of interest was removed as redundant), the new edge joins two intersections lying in "
+        "different cells and the clip step reports a between-boundary inconsistency. Repro: grisubal none 1 1 5 3/2 -5/2 5/2 -5/4 1 0 "
+        "-1/4 -3/2 1 -11/4 5 4 0 3 4 2 3 1 2 0 1 5 4 0 1 2 3 -> ok, vertex (5/2,-5/4) absent; same with `left` -> err "
+        "InconsistentOrientation. The model `slotsOf` reproduces the unwritten slot (stream `vertices on grid lines`, counted in its note).",
+        "OBSERVATION outside the property: a boundary segment lying ALONG a grid line makes insert_vertices_on_edge fail with VertexBound "
+        "(t = 1 at the corner) and grisubal panics on the unwrap: grisubal none 1 1 4 -3/4 -1/2 -3/4 3/2 -13/4 3/2 -3 -3/4 4 2 3 3 0 0 1 1 2 4 0 1 2 3",
+        "after /repo 2e893a8 every clause of C16 also holds on the corner family (2025 cases over two seeds, all segment orders, 3 clips; "
+        "run by hand with the end-to-end oracle, not part of the check since it is outside the stated scope)",
+    ],
     "not_proved": [
         "end-to-end geometric clauses (result well-formed and fully embedded, no negatively oriented face, every crossing "
         "and every retained point of interest is a vertex, faces tile the grid rectangle, exactly one side kept, kept area = "
@@ -98,15 +116,16 @@ SPEC = {
         "proved for one segment over exact rationals under eps-general position (C16_crossings_*: sound, complete, sorted, count = "
         "number of pre-allocated slots = C16_slots_genpos: no slot stays (0, NaN), one cell between consecutive crossings); NOT proved: "
         "that f64 rounding preserves these (the tie is exact only on the exact family); segments through grid corners "
-        "(IntersecCorner) are modelled (`slotsOf`) and tied on the exact family but no theorem describes them beyond "
-        "C16_nan_slot_shifts_ids; step 1 is tied directly (dart ids and exact t) through the hook, and the identifier-indexed vector "
+        "(IntersecCorner) and segment ends on grid lines are modelled (`slotsOf`) and tied on exact families, outside GenPos: no "
+        "theorem describes step 1 there; step 1 is tied directly (dart ids and exact t) through the hook, and the identifier-indexed vector "
         "is related to the vertex chain by C16_metadata_*",
-        "step 2 (group_intersections_per_edge, compute_intersection_ids) is modelled as pure functions and proved for EVERY HashMap "
-        "iteration order (C16_group_sorted, C16_intersection_ids_spec / _distinct / C16_intersection_darts_spec: each hit gets the "
-        "dart fh[i] / sh[len-1-i] of its edge's block, i = its rank along the edge by t — with C14_insertVertices_beta_structure and "
-        "C14_new_vertex_position_full that is `exactly one new dart pair per crossing, on its edge, in the order of t, and "
-        "intersection_darts[k] is the dart of that vertex on the side that was hit`), but NOT tied directly (no hook) and the "
-        "composition with insert_vertices_on_edge (step 3, model of C14) is stated in prose only, not as one theorem about a map; "
+        "steps 2 + 3 (group_intersections_per_edge, compute_intersection_ids, insert_intersections) are modelled, tied directly "
+        "through the hook intersection_darts, and proved for EVERY HashMap iteration order: C16_hits_slot_numbers (ids are slot "
+        "numbers, /repo 2e893a8), C16_group_sorted, C16_intersection_ids_spec / _distinct, C16_intersection_darts_spec / _distinct / "
+        "C16_unwritten_slot_null (every written slot k gets its own dart at res[k], unwritten slots shift nothing), and on the map "
+        "C16_insert_edge_spec (one edge: WF, C14's InsertResult chain, hit i reads fh[i] / sh[len-1-i] with beta1(beta2 sh[len-1-i]) = "
+        "fh[i], the vertex of fh[i] carries the point at t_i). NOT proved: the induction over all edges of insert_intersections "
+        "(frame clauses of InsertResult; validated by the gids tie), that add_free_darts provides the live free block (tied), "
         "steps 4-5 (generate_edge_data, insert_edges_in_map, mark_boundary): not modelled; covered only by the end-to-end oracle",
         "clip step: modelled, tied through the hook and proved on the topology (Props/C16Clip.lean: closure, error, deletion for "
         "every HashSet order, order independence, WF + 2-free boundary; mark_faces total: the loop ends within the model's fuel, "
@@ -768,6 +787,160 @@ def step1_tie(rng, count, exact, corner=False):
     return {"stats": stats, "violations": violations, "samples": [{"case": "step1", "input": [segs[0][0]], "impl_output": res[0][1][1:2]}] if segs else [], "notes": notes}
 
 
+# ---- steps 2 + 3 (hook grisubal::verif::intersection_darts): model `stepsTwoThree` vs implementation, + independent oracle ---
+
+def steps23_case(rng, k):
+    """a fresh grid (power-of-two cells, dyadic origin) and a slot vector: written slots (dart, dyadic t in ]0,1[), unwritten
+    slots `0 nan`, several hits per edge from both sides, equal positions; a few vectors with t = 0 / 1 (VertexBound -> the
+    kernel's `.unwrap()` panics)"""
+    nx, ny = rng.randint(1, 4), rng.randint(1, 3)
+    cx, cy = Fr(2) ** rng.randint(-1, 1), Fr(2) ** rng.randint(-1, 1)
+    ox, oy = Fr(rng.randint(-8, 8), 4), Fr(rng.randint(-8, 8), 4)
+    nd = 4 * nx * ny
+    n = rng.choice([0, 1, 2, 3, 4, 6, 8, 12])
+    pool = [rng.randint(1, nd) for _ in range(max(1, n // 2))] if rng.random() < 0.6 else None
+    bad = rng.random() < 0.06
+    slots = []
+    for _ in range(n):
+        if rng.random() < 0.2:
+            slots.append((0, "nan"))
+            continue
+        d = rng.choice(pool) if pool else rng.randint(1, nd)
+        t = Fr(rng.randrange(1, 16), 16)
+        if bad and rng.random() < 0.3:
+            t = Fr(rng.choice([0, 1]))
+        slots.append((d, t))
+    grid = f"grid 2 0 0 ncl {gg.rs(ox)} {gg.rs(oy)} {nx} {ny} {gg.rs(cx)} {gg.rs(cy)}"
+    return grid, slots
+
+
+def gids_line(keys, slots):
+    return f"gids {len(keys)} " + "".join(f"{e} " for e in keys) + f"{len(slots)}" + "".join(f" {d} {t if t == 'nan' else gg.rs(t)}" for d, t in slots)
+
+
+def steps23_tie(rng, count):
+    """1. the implementation runs `snap; gids; wf; snap`; 2. independent oracle on its output (every written slot k gets at
+    res[k] a new dart lying on the side of the dart hit, whose vertex is the point at position t of that dart; unwritten
+    slots get 0; 2 new darts per written slot; map well formed); 3. the iteration order of the HashMap is read off the
+    result (the block of edge e starts at beta1(e)) and handed to the model, whose reply, `wf` and `snap` must be
+    IDENTICAL TEXT (the model is parametric in that order: C16_intersection_ids_spec holds for every order)"""
+    return steps23_run([steps23_case(rng, k) for k in range(count)], "steps23")
+
+
+def steps23_run(raw, prefix):
+    """`raw`: list of (grid command, slot vector); see steps23_tie"""
+    cases = [Case(f"{prefix}-{k}", [g, "snap", gids_line([], sl), "wf", "snap"]) for k, (g, sl) in enumerate(raw)]
+    rc, out = hv.run_bin(hv.HCIMPL, hv.render(cases))
+    gi = hv.split_outputs(out)
+    stats = {"cases": len(cases), "lines": 0, "disagreements": 0, "oracle_failures": 0, "impl_outcomes": {}, "ops": {"gids": len(cases)},
+             "distinct_nontrivial": 0, "exhaustive": False}
+    violations, distinct, mcases = [], set(), []
+    orders = {"first-insertion": 0, "other": 0}
+    multi = nanslots = written = 0
+    for k, c in enumerate(cases):
+        li = gi[k][1] if k < len(gi) else ["<missing>"] * 5
+        stats["lines"] += len(li)
+        distinct.add("\n".join(li))
+        slots = raw[k][1]
+        fails = []
+        keys = []
+        if len(li) < 5 or not li[1].startswith("snap") or not li[4].startswith("snap"):
+            fails.append(f"driver: {li[:5]}")
+        else:
+            pre, post = gg.parse_snap(li[1]), gg.parse_snap(li[4])
+            b2 = pre["b"][2]
+            edge = lambda d: b2[d] if b2[d] and b2[d] < d else d
+            hit = [(i, d, t) for i, (d, t) in enumerate(slots) if t != "nan"]
+            written += len(hit)
+            nanslots += len(slots) - len(hit)
+            per = {}
+            for i, d, t in hit:
+                per.setdefault(edge(d), []).append((t if edge(d) == d else 1 - t, i, d))
+            multi += sum(1 for v in per.values() if len(v) > 1)
+            badedges = {e for e, v in per.items() if any(t <= 0 or t >= 1 for t, _, _ in v)}
+            base = pre["n"]
+            key = li[2].split()[0]
+            stats["impl_outcomes"][key] = stats["impl_outcomes"].get(key, 0) + 1
+            done = sorted((e for e in per if post["b"][1][e] >= base), key=lambda e: post["b"][1][e])
+            if li[2] == "panic":
+                if not badedges:
+                    fails.append("panic: intersection_darts panicked although every position lies in ]0,1[")
+                if set(done) & badedges:
+                    fails.append("panic-state: an edge with a position outside ]0,1[ was subdivided")
+                keys = done + sorted(badedges) + sorted(e for e in per if e not in done and e not in badedges)
+            elif li[2].startswith("ok"):
+                keys = done
+                res = [int(x) for x in li[2].split()[1:]]
+                if badedges:
+                    fails.append("accepted: a position outside ]0,1[ was inserted")
+                elif len(res) != len(slots):
+                    fails.append(f"length: {len(res)} darts for {len(slots)} slots")
+                else:
+                    if li[3] != "wf true true true":
+                        fails.append(f"not-wf: {li[3]}")
+                    if post["n"] != base + 2 * len(hit):
+                        fails.append(f"dart-count: {post['n']} darts, expected {base} + 2 x {len(hit)}")
+                    mpre, mpost = gg.Mesh(pre), gg.Mesh(post)
+                    if sorted(done) != sorted(per):
+                        fails.append("edge-not-subdivided: " + str(sorted(set(per) - set(done))))
+                    for i, (d, t) in enumerate(slots):
+                        if t == "nan":
+                            if res[i] != 0:
+                                fails.append(f"unwritten-slot: slot {i} got dart {res[i]}")
+                            continue
+                        x = res[i]
+                        if not (base <= x < post["n"]):
+                            fails.append(f"not-new: slot {i} got dart {x}")
+                            continue
+                        a, b = mpre.P[d], mpre.P[pre["b"][1][d]]
+                        want = (a[0] + t * (b[0] - a[0]), a[1] + t * (b[1] - a[1]))
+                        if mpost.P[x][:2] != want:
+                            fails.append(f"position: slot {i} (dart {d}, t {t}) got dart {x} at {mpost.P[x]} instead of {want}")
+                        chain, y = [], post["b"][1][d]
+                        while y >= base and len(chain) <= len(slots):
+                            chain.append(y)
+                            y = post["b"][1][y]
+                        if x not in chain or y != pre["b"][1][d]:
+                            fails.append(f"side: slot {i}: dart {x} is not on the beta1 chain {chain} from dart {d} to its old successor")
+                    if len(set(r for r in res if r)) != len(hit):
+                        fails.append("not-distinct: two written slots share a dart")
+            else:
+                fails.append(f"reply: {li[2]!r}")
+        if fails:
+            stats["oracle_failures"] += 1
+            violations.append({"kind": "oracle", "found_input": True, "sig": "gids", "finding": None, "tags": sorted({f.split(":")[0] for f in fails}),
+                               "what": f"steps 2+3 of grisubal on case {c.cid}: " + "; ".join(fails[:6]),
+                               "replay": {"case": c.cid, "input_lines": c.lines, "impl_output": [x[:400] for x in li], "oracle_failure": "; ".join(fails[:6]),
+                                          "replay_cmd": f"printf '%s\\n' <input_lines> | {hv.HCIMPL_PATH}"}})
+        first = []
+        for i, (d, t) in enumerate(slots):
+            if t != "nan" and len(li) >= 2 and li[1].startswith("snap"):
+                e = edge(d)
+                if e not in first:
+                    first.append(e)
+        orders["first-insertion" if keys == first else "other"] += 1
+        mcases.append(Case(c.cid, [c.lines[0], "snap", gids_line(keys, slots), "wf", "snap"]))
+    rc, outm = hv.run_bin(hv.HCMODEL, hv.render(mcases))
+    gm = hv.split_outputs(outm)
+    for k, c in enumerate(mcases):
+        li = gi[k][1] if k < len(gi) else ["<missing>"]
+        lm = gm[k][1] if k < len(gm) else ["<missing>"]
+        if li != lm:
+            stats["disagreements"] += 1
+            if sum(1 for v in violations if v["kind"] == "correspondence") < 5:
+                j = next((j for j, (a, b) in enumerate(zip(li, lm)) if a != b), min(len(li), len(lm)))
+                violations.append({"kind": "correspondence", "found_input": False, "sig": "gids",
+                                   "what": f"steps 2+3 of grisubal on case {c.cid} (line {j}): impl={li[j][:200] if j < len(li) else None!r} "
+                                           f"model={lm[j][:200] if j < len(lm) else None!r}",
+                                   "replay": {"case": c.cid, "input_lines": c.lines, "impl_output": [x[:400] for x in li], "model_output": [x[:400] for x in lm],
+                                              "theorem_or_correspondence": "stepsTwoThree (Model/GrisubalInsert.lean) vs grisubal::verif::intersection_darts"}})
+    stats["distinct_nontrivial"] = len(distinct)
+    notes = [f"gids tie (identical text: ids, wf, full snapshot): {len(cases)} slot vectors, {written} written + {nanslots} unwritten slots, {multi} edges hit "
+             f"more than once; HashMap iteration order read off the implementation's result: {orders}; outcomes {stats['impl_outcomes']}"]
+    return {"stats": stats, "violations": violations,
+            "samples": [{"case": cases[0].cid, "input": cases[0].lines, "impl_output": [x[:300] for x in gi[0][1]]}] if cases and gi else [], "notes": notes}
+
+
 # ---- boundary segments through grid corners (outside general position, handled by the kernel: IntersecCorner) ----------
 
 def corner_geometry(rng):
@@ -811,7 +984,9 @@ def corner_geometry(rng):
     return None
 
 
-def corner_cases(rng, count, cmd="grisubal", oracle_name="c16corner", obs=("wf", "snap")):
+def corner_cases(rng, count, cmd="grisubal", oracle_name="c16", obs=("wf", "snap")):
+    """the end-to-end command on polygons with an edge through a grid corner, several segment orders (used by C17, whose
+    statement has no general-position clause; under C16 these geometries are correspondence-only: pipeline_tie)"""
     cases = []
     k = 0
     tries = 0
@@ -821,79 +996,54 @@ def corner_cases(rng, count, cmd="grisubal", oracle_name="c16corner", obs=("wf",
         if g is None:
             continue
         k += 1
-        ox, oy, nx, ny = g.grid()
         for rot in sorted({0, rng.randrange(len(g.segs)), rng.randrange(len(g.segs))}):
             segs = g.segs[rot:] + g.segs[:rot]
             if rng.random() < 0.3:
                 segs = segs[::-1]
-            probes = ["gcrossd " + " ".join(gg.rs(q) for q in (g.cell[0], g.cell[1], ox, oy)) + f" {nx} {ny} " +
-                      " ".join(gg.rs(q) for q in (*g.verts[a], *g.verts[b])) for a, b in segs]
             for clip in ("none", "left", "right"):
-                cases.append(Case(f"{cmd}-corner-{k}-{rot}-{clip}", [g.line(cmd, clip, segs=segs)] + list(obs) + probes, oracle=oracle_name,
-                                  meta={"geo": g, "clip": clip, "expect": "mesh", "sig": f"corner-{clip}", "facts": facts_of(g), "nseg": len(segs),
-                                        "probe_at": 1 + len(obs)}))
+                cases.append(Case(f"{cmd}-corner-{k}-{rot}-{clip}", [g.line(cmd, clip, segs=segs)] + list(obs), oracle=oracle_name,
+                                  meta={"geo": g, "clip": clip, "expect": "mesh", "sig": f"corner-{clip}", "facts": facts_of(g)}))
     return cases
-
-
-def nan_before_filled(probe_lines):
-    """the concatenation of the per-segment slot lists is `intersection_metadata`; True when a preallocated slot left at
-    (0, NaN) precedes a filled one (then `filter(!nan).enumerate()` of step 2 numbers the later intersections differently
-    from the `GeometryVertex::Intersec(id)` keys of step 1)"""
-    slots = []
-    for ln in probe_lines:
-        if not ln.startswith("ok"):
-            return None
-        slots += [x.split()[1] == "nan" for x in ln[2:].split(";") if x.strip()]
-    seen_nan = False
-    for is_nan in slots:
-        if is_nan:
-            seen_nan = True
-        elif seen_nan:
-            return True
-    return False
-
-
-def corner_oracle(case, li):
-    if case.oracle != "c16corner":
-        return None
-    if any(ln.startswith("<missing") for ln in li):
-        return "driver-died: " + li[0]
-    g, clip = case.meta["geo"], case.meta["clip"]
-    shifted = nan_before_filled(li[case.meta["probe_at"]:case.meta["probe_at"] + case.meta["nseg"]])
-    case.meta["facts"]["nan_slot_before_filled_slot"] = shifted
-    if shifted is None:
-        return "probe-failed: the step-1 hook refused a segment: " + "; ".join(li[3:])[:200]
-    res = li[0]
-    if res == "panic":
-        return "panic: grisubal panicked on a valid geometry (an edge passes through a grid corner)", ("nan-slot-shifts-intersection-ids" if shifted else None)
-    if res != "ok":
-        return f"refused: valid geometry answered {res!r}"
-    f = check_mesh(g, clip, gg.parse_snap(li[2]), li[1])
-    if not f:
-        return None
-    return "; ".join(f[:8]), None
 
 
 # ---- geometry vertices on grid lines (outside general position; the kernel keeps them: only corners shift the origin) -----
 
 def online_geometry(rng):
-    """exact family (cell 1, vertex lattice 1/4, every corner a point of interest): at least one vertex lies on a grid line
-    of the grid the kernel chooses; none on a grid corner, none whose two neighbours share a cell (those shift the origin),
-    no segment through a grid corner or along a grid line"""
+    """exact family (every corner a point of interest; closed polygon of 3-6 edges whose steps are (cell size) x ({0} u
+    {1/2, 1, 2, 4}) in each direction, so that every f64 operation of step 1 is exact): at least one vertex lies on a grid
+    line of the grid the kernel chooses; none on a grid corner, none whose two neighbours share a cell (those shift the
+    origin), no segment through a grid corner or along a grid line"""
     import math
-    for _ in range(500):
-        k = rng.randint(3, 7)
-        lp = gg.star_polygon(rng, (rng.uniform(-2, 2), rng.uniform(-2, 2)), 0.8, 2.6, k, 4, convex=rng.random() < 0.5)
-        if not lp or not gg.loops_simple([lp]):
+    cx, cy = rng.choice([(Fr(1), Fr(1)), (Fr(1), Fr(2)), (Fr(1, 2), Fr(1)), (Fr(2), Fr(2))])
+    vals = [0, Fr(1, 2), Fr(1, 2), 1, 1, 2, 4]
+    for _ in range(2000):
+        k = rng.randint(3, 6)
+        steps = [(rng.choice([1, -1]) * rng.choice(vals), rng.choice([1, -1]) * rng.choice(vals)) for _ in range(k - 1)]
+        last = (-sum(a for a, _ in steps), -sum(b for _, b in steps))
+        if abs(last[0]) not in vals or abs(last[1]) not in vals:
             continue
-        g = gg.Geometry([lp], gg.choose_poi(rng, [lp], "all"), (Fr(1), Fr(1)), "online")
+        steps.append(last)
+        if any(st == (0, 0) for st in steps):
+            continue
+        pts = [(Fr(0), Fr(0))]
+        for a, b in steps[:-1]:
+            pts.append((pts[-1][0] + a, pts[-1][1] + b))
+        if len(set(pts)) != len(pts) or max(abs(x) for x, _ in pts) > 7 or max(abs(y) for _, y in pts) > 7:
+            continue
+        fx, fy = Fr(rng.choice([-3, 0, 1, 5]), 4), Fr(rng.choice([-2, 0, 3, 7]), 4)
+        lp = [(fx + x * cx, fy + y * cy) for x, y in pts]
+        if not gg.loops_simple([lp]) or gg.area2(lp) == 0:
+            continue
+        if gg.area2(lp) < 0:
+            lp = lp[::-1]
+        g = gg.Geometry([lp], gg.choose_poi(rng, [lp], "all"), (cx, cy), "online")
         g.interior_left, g.poi_mode = True, "all"
         ox, oy, nx, ny = g.grid()
-        onl = [((x - ox).denominator == 1, (y - oy).denominator == 1) for x, y in g.verts]
+        onl = [(((x - ox) / cx).denominator == 1, ((y - oy) / cy).denominator == 1) for x, y in g.verts]
         if not any(a or b for a, b in onl) or any(a and b for a, b in onl):
             continue
         n = len(lp)
-        cellof = lambda p: (math.floor(p[0] - ox), math.floor(p[1] - oy))
+        cellof = lambda p: (math.floor((p[0] - ox) / cx), math.floor((p[1] - oy) / cy))
         if any((a or b) and cellof(lp[(i - 1) % n]) == cellof(lp[(i + 1) % n]) for i, (a, b) in enumerate(onl)):
             continue
         ok = True
@@ -902,10 +1052,10 @@ def online_geometry(rng):
             if (onl[a][0] and onl[b][0] and p[0] == q[0]) or (onl[a][1] and onl[b][1] and p[1] == q[1]):
                 ok = False
             for i in range(nx + 1):
-                gx = ox + i
+                gx = ox + i * cx
                 if (p[0] - gx) * (q[0] - gx) < 0:
                     t = (gx - p[0]) / (q[0] - p[0])
-                    if (p[1] + t * (q[1] - p[1]) - oy).denominator == 1:
+                    if ((p[1] + t * (q[1] - p[1]) - oy) / cy).denominator == 1:
                         ok = False
         if not ok:
             continue
@@ -914,84 +1064,93 @@ def online_geometry(rng):
     return None
 
 
-def online_cases(rng, count, cmd="grisubal", oracle_name="c16online", obs=("wf", "snap")):
-    cases = []
-    k = 0
-    while k < count:
-        if k == 0:
-            # directed (D16d): vertex 1 lies on a horizontal grid line, the diagonal segment 0 -> 1 ending there comes last
-            lp = [(Fr(3, 2), Fr(-5, 2)), (Fr(5, 2), Fr(-5, 4)), (Fr(1), Fr(0)), (Fr(-1, 4), Fr(-3, 2)), (Fr(1), Fr(-11, 4))]
-            g = gg.Geometry([lp], [(0, i) for i in range(5)], (Fr(1), Fr(1)), "online")
-            g.interior_left, g.poi_mode, g.on_line = True, "all", [1]
-            rot = 1
-        else:
-            g = online_geometry(rng)
-            if g is None:
-                break
-            rot = rng.randrange(len(g.segs))
-        k += 1
-        ox, oy, nx, ny = g.grid()
-        segs = g.segs[rot:] + g.segs[:rot]
-        probes = ["gcrossd " + " ".join(gg.rs(q) for q in (g.cell[0], g.cell[1], ox, oy)) + f" {nx} {ny} " +
-                  " ".join(gg.rs(q) for q in (*g.verts[a], *g.verts[b])) for a, b in segs]
-        for clip in ("none", "left", "right"):
-            cases.append(Case(f"{cmd}-online-{k}-{clip}", [g.line(cmd, clip, segs=segs)] + list(obs) + probes, oracle=oracle_name,
-                              meta={"geo": g, "clip": clip, "expect": "mesh", "sig": f"online-{clip}", "facts": facts_of(g), "nseg": len(segs),
-                                    "probe_at": 1 + len(obs), "segs": segs}))
-    return cases
-
-
-def dropped_end_crossings(g, segs, probe_lines):
-    """vertices on a grid line whose crossing the diagonal branch of step 1 dropped: ends of a segment whose cells differ in
-    both directions and whose real slot list (hook) has an unwritten slot.  None if an unwritten slot has another origin."""
-    import math
-    ox, oy, nx, ny = g.grid()
-    cellof = lambda p: (math.floor((p[0] - ox) / g.cell[0]), math.floor((p[1] - oy) / g.cell[1]))
-    res = set()
-    for (a, b), ln in zip(segs, probe_lines):
-        if "nan" not in ln:
-            continue
-        ca, cb = cellof(g.verts[a]), cellof(g.verts[b])
-        ends = {v for v in (a, b) if v in g.on_line}
-        if ca[0] == cb[0] or ca[1] == cb[1] or not ends:
-            return None
-        res |= ends
+def online_geometries(rng, count):
+    """(geometry, segment order) pairs"""
+    res = []
+    while len(res) < count:
+        g = online_geometry(rng)
+        if g is None:
+            break
+        rot = rng.randrange(len(g.segs))
+        res.append((g, g.segs[rot:] + g.segs[:rot]))
     return res
 
 
-def online_oracle(case, li):
-    if case.oracle != "c16online":
-        return None
-    if any(ln.startswith("<missing") for ln in li):
-        return "driver-died: " + li[0]
-    g, clip = case.meta["geo"], case.meta["clip"]
-    at = case.meta["probe_at"]
-    probes = li[at:at + case.meta["nseg"]]
-    shifted = nan_before_filled(probes)
-    if shifted is None:
-        return "probe-failed: the step-1 hook refused a segment: " + "; ".join(probes)[:200]
-    dropped = dropped_end_crossings(g, case.meta["segs"], probes)
-    case.meta["facts"].update({"nan_slot_before_filled_slot": shifted, "vertices_on_grid_lines": g.on_line,
-                               "dropped_end_crossings": sorted(dropped) if dropped is not None else None})
-    res = li[0]
-    if res == "panic":
-        return "panic: grisubal panicked on a valid geometry (a vertex lies on a grid line)", ("nan-slot-shifts-intersection-ids" if shifted else None)
-    if shifted:
-        return f"unexpected: a NaN slot precedes a written slot but the call answered {res!r}"
-    if res != "ok":
-        fin = "diagonal-branch-drops-end-crossing" if dropped and clip != "none" and res == "err InconsistentOrientation between-boundary-inconsistency" else None
-        return f"refused: valid geometry answered {res!r}", fin
-    s = gg.parse_snap(li[2])
-    f = check_mesh(g, clip, s, li[1])
-    if not f:
-        return None
-    fin = None
-    if dropped and {x.split(":")[0] for x in f} <= {"poi-missing"}:
-        pos = {s["a0"][v] for v in gg.Mesh(s).vertices}
-        missing = {v for v in g.poi_ids() if g.verts[v] not in pos}
-        if missing and missing <= dropped:
-            fin = "diagonal-branch-drops-end-crossing"
-    return "; ".join(f[:8]), fin
+def corner_geometries(rng, count):
+    res = []
+    tries = 0
+    while len(res) < count and tries < 40 * count:
+        tries += 1
+        g = corner_geometry(rng)
+        if g is None:
+            continue
+        rot = rng.randrange(len(g.segs))
+        segs = g.segs[rot:] + g.segs[:rot]
+        res.append((g, segs[::-1] if rng.random() < 0.3 else segs))
+    return res
+
+
+def pipeline_tie(pairs, prefix):
+    """steps 1-3 of the kernel, model vs implementation only (no clause of the property is evaluated: these geometries lie
+    outside the statement's `general position`): `gcrossd` for every segment on the grid the kernel would choose (slots as
+    identical text), then `gids` on the concatenated slot vector of the implementation (steps23_run: identical ids, wf,
+    snapshot; the hook-level oracle of steps 2+3 applies, it does not depend on the geometry)"""
+    import math
+    cases, metas = [], []
+    for k, (g, segs) in enumerate(pairs):
+        ox, oy, nx, ny = g.grid()
+        head = " ".join(gg.rs(q) for q in (g.cell[0], g.cell[1], ox, oy)) + f" {nx} {ny} "
+        cases.append(Case(f"{prefix}-{k}", ["new 2 0 0"] + ["gcrossd " + head + " ".join(gg.rs(q) for q in (*g.verts[a], *g.verts[b])) for a, b in segs]))
+        metas.append((g, segs, f"grid 2 0 0 ncl {gg.rs(ox)} {gg.rs(oy)} {nx} {ny} {gg.rs(g.cell[0])} {gg.rs(g.cell[1])}"))
+    res = hv.run_pair(cases)
+    stats = {"cases": len(cases), "lines": 0, "disagreements": 0, "oracle_failures": 0, "impl_outcomes": {}, "ops": {"gcrossd": sum(len(c.lines) - 1 for c in cases)},
+             "distinct_nontrivial": 0, "exhaustive": False}
+    violations, distinct, raw = [], set(), []
+    nseg = unwritten = shifted = dropped_ends = 0
+    for (c, li, lm), (g, segs, gridline) in zip(res, metas):
+        stats["lines"] += len(li)
+        distinct.add("\n".join(li))
+        if li != lm:
+            stats["disagreements"] += 1
+            if len(violations) < 5:
+                j = next((j for j, (a, b) in enumerate(zip(li, lm)) if a != b), min(len(li), len(lm)))
+                violations.append({"kind": "correspondence", "found_input": False, "sig": "gcrossd",
+                                   "what": f"step 1 of grisubal on case {c.cid}: {c.lines[j] if j < len(c.lines) else None!r}: impl={li[j][:200] if j < len(li) else None!r} "
+                                           f"model={lm[j][:200] if j < len(lm) else None!r}",
+                                   "replay": {"case": c.cid, "input_lines": c.lines, "impl_output": li, "model_output": lm,
+                                              "theorem_or_correspondence": "slotsOf (Model/Grisubal.lean) vs grisubal::verif::intersection_data"}})
+            continue
+        slots = []
+        ox, oy, nx, ny = g.grid()
+        cellof = lambda p: (math.floor((p[0] - ox) / g.cell[0]), math.floor((p[1] - oy) / g.cell[1]))
+        for (a, b), ln in zip(segs, li[1:]):
+            nseg += 1
+            these = [x.split() for x in ln[2:].split(";") if x.strip()]
+            slots += [(0, "nan") if x[1] == "nan" else (int(x[0]), Fr(x[1])) for x in these]
+            ca, cb = cellof(g.verts[a]), cellof(g.verts[b])
+            if any(x[1] == "nan" for x in these) and ca[0] != cb[0] and ca[1] != cb[1] and \
+                    any(v in getattr(g, "on_line", []) for v in (a, b)):
+                dropped_ends += 1
+        unwritten += sum(1 for _, t in slots if t == "nan")
+        seen = False
+        for _, t in slots:
+            if t == "nan":
+                seen = True
+            elif seen:
+                shifted += 1
+                break
+        raw.append((gridline, slots))
+    r2 = steps23_run(raw, prefix + "-ids")
+    stats["distinct_nontrivial"] = len(distinct) + r2["stats"]["distinct_nontrivial"]
+    for kk in ("cases", "lines", "disagreements", "oracle_failures"):
+        stats[kk] += r2["stats"][kk]
+    for kk in ("impl_outcomes", "ops"):
+        for a, b in r2["stats"][kk].items():
+            stats[kk][a] = stats[kk].get(a, 0) + b
+    notes = [f"{prefix}: {len(cases)} geometries, {nseg} segments; real slot vectors with {unwritten} unwritten slots, {shifted} vectors with an unwritten slot "
+             f"before a written one (the situation of the repaired D16c: ids = slot numbers on both sides); "
+             f"{dropped_ends} diagonal-branch segments with an end on a grid line and an unwritten slot (observation, see SPEC['observations'])"] + r2["notes"]
+    return {"stats": stats, "violations": violations + r2["violations"], "samples": r2["samples"][:1], "notes": notes}
 
 
 # ---- clip step: model (Model/Clip.lean) vs the real clip_left / clip_right (hook grisubal::verif) -----------------------
@@ -1169,7 +1328,8 @@ def run(tier, seed):
     parts.append(("overlapping grid: model sizing formula vs bounding box of the returned map", grid_tie(geo)))
     parts.append(("step 1 direct (hook intersection_data): (dart, t) pairs, model vs implementation, exact family", step1_tie(rng, 1500 * mult, True)))
     parts.append(("step 1 direct (hook intersection_data): (dart, t) pairs, general segments (t within 1e-9)", step1_tie(rng, 500 * mult, False)))
-    parts.append(("step 1 direct (hook intersection_data): segments through grid corners (NaN slots), exact family", step1_tie(rng, 400 * mult, True, corner=True)))
+    parts.append(("step 1 direct (hook intersection_data): segments through grid corners (NaN slots), exact family (outside GenPos: correspondence only)",
+                  step1_tie(rng, 400 * mult, True, corner=True)))
     parts.append(("clip step: model vs the real clip_left / clip_right on hand-made tagged maps", clip_tie(rng, tier)))
     pre = [c.meta["geo"] for c in geo if c.meta["clip"] == "none" and not c.meta["geo"].loops_crossing_nothing()
            and not c.meta["geo"].flat_chords()[0]][:40 * mult]
@@ -1182,9 +1342,12 @@ def run(tier, seed):
     parts.append(("step 1 (crossings per segment): model vs implementation, general polygons (tolerance 1e-9)", cross_tie(gen, False)))
     parts.append(("loops inside one grid cell", gg.impl_campaign(tiny_loop_cases(rng, 8 * mult), oracle)))
     parts.append(("directed: nested V dips through one cell side", gg.impl_campaign(chevron_cases(), oracle)))
-    parts.append(("edges through grid corners (exact family; step-1 slots probed through the hook)", gg.impl_campaign(corner_cases(rng, 40 * mult), corner_oracle)))
-    parts.append(("vertices on grid lines (exact family, all corners points of interest; step-1 slots probed through the hook)",
-                  gg.impl_campaign(online_cases(rng, 40 * mult), online_oracle)))
+    parts.append(("steps 2 + 3 direct (hook intersection_darts): ids + map after insertion, model vs implementation, + hook-level oracle",
+                  steps23_tie(rng, 800 * mult)))
+    parts.append(("edges through grid corners (outside general position: steps 1-3, model vs implementation only)",
+                  pipeline_tie(corner_geometries(rng, 80 * mult), "corner")))
+    parts.append(("vertices on grid lines (outside general position: steps 1-3, model vs implementation only)",
+                  pipeline_tie(online_geometries(rng, 80 * mult), "online")))
     parts.append(("mis-oriented boundaries", gg.impl_campaign(misoriented_cases(rng, 40 * mult), oracle)))
     parts.append(("inconsistently nested loops with clipping", gg.impl_campaign(inconsistent_nesting_cases(rng, 30 * mult), oracle)))
     return hv.merge_results(parts)
